@@ -776,6 +776,9 @@ def __sx_call__(f, *a, **k):
             return sx_int_from_bytes(*a, **k)
         if slf is bytes and name == "fromhex":
             return sx_fromhex(*a, **k)
+        if name == "join" and isinstance(slf, str) and len(a) == 1 and getattr(a[0], "_sx_opaque", False):
+            from . import text as _text
+            return _text.join_text(slf, a[0])
         if name == "join" and isinstance(slf, (str, bytes)) and len(a) == 1 and not isinstance(a[0], (list, tuple)):
             a = (list(a[0]),)          # generators: materialise before looking for symbolic parts
         if isinstance(slf, str):
@@ -967,6 +970,29 @@ def _dict_method(o, name, a, k):
         return None
     if name == "__contains__":
         return _dict_find(o, a[0]) is not None
+    if name == "move_to_end":
+        hit = _dict_find(o, a[0])
+        if hit is None:
+            raise KeyError("symbolic key")
+        if hit[0] == "native":
+            o.move_to_end(hit[1], *a[1:], **k)
+        else:
+            side.remove(hit[1])
+            (side.append if (a[1] if len(a) > 1 else k.get("last", True)) else (lambda e: side.insert(0, e)))(hit[1])
+        return None
+    if name == "popitem":
+        last = a[0] if a else k.get("last", True)
+        if (last and side) or (not last and not len(o) and side):
+            e = side.pop(-1 if last else 0)
+            return (e[0], e[1])
+        if len(o):
+            try:
+                return o.popitem(last) if a or k else o.popitem()
+            except TypeError:
+                return o.popitem()
+        raise KeyError("popitem(): dictionary is empty")
+    if name == "copy":
+        raise Unsupported("copy of a dictionary with symbolic keys")
     if name == "update":
         other = a[0] if a else {}
         for kk, vv in (other.items() if isinstance(other, dict) else other):
